@@ -86,6 +86,27 @@ CHECKS = {
   note="How GDAL exposes masks (alpha honoured only for 1/3-band Byte/UInt16 + alpha) is GDAL's rule; WarpedVRT mask handling "
        "is not modelled.",
   tech="Lean 4 proof (case analysis, list congruence) + bit-identity differential runs across encodings", ref='7 C08'),
+ 'C13': dict(
+  text="Proof (Lean 4): round-half-even is within half a unit and ties go to even (rhe_nearest, rhe_tie_even); a valid float32 "
+       "value becomes the nearest integer clamped into the range, +-inf and out-of-range values saturate, the stored integer is "
+       "always in range (never_wraps), invalid pixels carry nodata or a cleared internal-mask bit, float targets are the identity, a "
+       "valid pixel is lost only by coinciding with nodata, nodata must be castable (10 theorems). Tied to the code by "
+       "_convert_array_dtype on adversarial arrays (ties, negatives, >2^32, +-inf, +-3e38, NaN) x 7 dtypes x 5-7 nodata settings "
+       "and by real fusions repeated with dtype x nodata x driver (GTiff/PNG) x lossless creation options: every output pixel and "
+       "mask must equal the model conversion of the float32 run.",
+  note="GeoTIFF/PNG encoders and the GDAL internal-mask mechanism are trusted to store what is written (lossless options only).",
+  tech="Lean 4 proof (omega/nlinarith on integer division, case analysis) + per-pixel differential run", ref='7 C13'),
+ 'C14': dict(
+  text="Proof (Lean 4): paramIndex n i k = k n + i + 1 gives bands i, n+i, 2n+i; it is a bijection onto 1..3n and injective "
+       "(writes of different pairs/parameters never collide); the metadata loop labels exactly band paramIndex n i k with "
+       "parameter k; the suffix validate_param_image expects there is k; on the source grid corrected = gain*src + offset "
+       "(7 theorems). Tied to the code by multi-band fusions with default/subset/re-ordered band selections: each matched pair "
+       "re-run as a single-band fusion must be bit-identical to bands i, n+i, 2n+i and corrected band i; labels vs the model's "
+       "layout; tags; ParamStats accepts; parameter mask = jointly valid on the processing grid (model validity rules); "
+       "source-grid identity bit for bit.",
+  note="The value content of the parameter bands is C01/C05's; degenerate windows are excluded from the mask comparison "
+       "(gain-offset skipped there).",
+  tech="Lean 4 proof (Nat division/modulo arithmetic, list computation) + bit-identity differential runs", ref='7 C14'),
  'C16': dict(
   text="Proof (Lean 4): the repaired covers_bounds predicate accepts iff the source footprint is contained in the reference "
        "footprint on each axis (covers_iff_contains), overhang on any side by any amount is rejected, the same grid is accepted, "
